@@ -201,7 +201,11 @@ def update_state(elasticTrialStrain, stateOld, dt, props, hardening_model):
     N = compute_flow_direction(elasticTrialStrain)
     lb = eqpsOld
     trialMises = 2 * props[PROPS_MU] * np.tensordot(TensorMath.dev(elasticTrialStrain), N)
-    ub = eqpsOld + (trialMises - hardening_model.compute_flow_stress(eqpsOld, eqpsOld, dt))/(3.0*props[PROPS_MU])
+    # The residual at ub equals the hardening over the increment plus the solver tolerance,
+    # so the root stays strictly bracketed even when the hardening curve is flat
+    # (saturated Voce, zero hardening modulus), where it would otherwise be zero up to
+    # rounding of either sign and the root finder would return nan.
+    ub = eqpsOld + (trialMises - hardening_model.compute_flow_stress(eqpsOld, eqpsOld, dt) + _TOLERANCE*props[PROPS_Y0])/(3.0*props[PROPS_MU])
     # Avoid the initial guess eqpsGuess = eqpsOld, because the power law rate sensitivity has an infinte slope
     # in this case.
     eqpsGuess = 0.5*(lb + ub)
